@@ -1,11 +1,16 @@
 #!/bin/bash
-# usage: with_mutant.sh <id> <command...>  -- apply /verif/seeded/<id>/patch.diff to /repo, run, restore /repo
+# usage: with_mutant.sh <id> <command...>
+# Runs <command> (e.g. ./check C05) against a private worktree of /repo's HEAD with seeded/<id>/patch applied,
+# using a private build cache, so that /repo itself and the default cache are never touched.
 id=$1; shift
-git -C /repo diff --quiet HEAD || { echo "/repo is dirty"; exit 2; }
+M=/tmp/wt/mrepo; export VERIF_CACHE=/tmp/wt/mcache
+head=$(git -C /repo rev-parse HEAD)
+if [ ! -d $M ]; then git -C /repo worktree add -q --detach $M $head || exit 2; fi
+git -C $M reset -q --hard; git -C $M checkout -q --detach $head || exit 2
 p=/verif/seeded/$id/patch.diff; [ -f /verif/seeded/$id/patch.rebased.diff ] && p=/verif/seeded/$id/patch.rebased.diff
-if ! git -C /repo apply $p 2>/dev/null; then
-  git -C /repo apply --3way $p >/dev/null 2>&1 || { echo "PATCH $id DOES NOT APPLY"; git -C /repo reset -q --hard HEAD; exit 3; }
+if ! git -C $M apply $p 2>/dev/null; then
+  git -C $M apply --3way $p >/dev/null 2>&1 || { echo "PATCH $id DOES NOT APPLY"; git -C $M reset -q --hard; exit 3; }
 fi
-"$@"; rc=$?
-git -C /repo reset -q --hard HEAD
+VERIF_REPO=$M "$@"; rc=$?
+git -C $M reset -q --hard
 exit $rc
